@@ -28,6 +28,7 @@ def main():
     ap.add_argument("--also", default="")
     ap.add_argument("--tier", default="quick")
     ap.add_argument("--src", default=None)
+    ap.add_argument("--tag", default="", help="infix for the directory name, e.g. r2 -> C01-r2-1")
     a = ap.parse_args()
     seed = a.src or "/tmp/seed_%s/_seed" % a.prop
     patches = sorted(glob.glob(seed + "/patch*.diff"))
@@ -39,6 +40,8 @@ def main():
             if os.path.exists(os.path.join(seed, cand)):
                 demo = os.path.join(seed, cand)
         notes = os.path.join(seed, "notes%s.md" % ("" if n == "1" else n))
+        if not os.path.exists(notes):
+            notes = os.path.join(seed, "notes%s.md" % n)
         tmp = tempfile.mkdtemp(prefix="verif_seed_")
         res = {"property": a.prop, "patch": os.path.basename(pf), "demo": os.path.basename(demo) if demo else None}
         try:
@@ -60,7 +63,7 @@ def main():
                 for tree, key in ((mut, "demo_fails_with_change"), (clean, "demo_passes_without_change")):
                     dst = os.path.join(tree, d, "zz_seed_demo_test.go")
                     shutil.copy(demo, dst)
-                    race = ["-race"] if "race" in open(notes).read().lower() and a.prop in ("C10", "C11") else []
+                    race = ["-race"] if os.path.exists(notes) and "race" in open(notes).read().lower() and a.prop in ("C10", "C11") else []
                     env = dict(ENV, CGO_ENABLED="1") if race else ENV
                     rc, o = run(["go", "test", "-vet=off", "-count=1"] + race + ["./" + d], tree, env=env)
                     res[key] = (rc != 0) if tree is mut else (rc == 0)
@@ -76,7 +79,7 @@ def main():
             confirmed = res.get("builds") and res.get("suite_passes_with_change") and res.get("demo_fails_with_change") and res.get("demo_passes_without_change")
             res["confirmed"] = bool(confirmed)
             if confirmed:
-                dst = os.path.join(VERIF, "seeded", "%s-%s" % (a.prop, n))
+                dst = os.path.join(VERIF, "seeded", "%s-%s%s" % (a.prop, (a.tag + "-") if a.tag else "", n))
                 os.makedirs(dst, exist_ok=True)
                 shutil.copy(pf, os.path.join(dst, "patch.diff"))
                 shutil.copy(demo, os.path.join(dst, os.path.basename(demo).replace("demo2", "demo").replace("demo", "demo", 1)))
